@@ -482,7 +482,11 @@ def cases(draw, max_params=12, big=False):
         case['variants'] = variants
     top_params = case['func']['params'][len(case['prepend']):]
     if draw(st.booleans()):
-        npos = draw(st.integers(0, len(top_params)))
+        # (sometimes more values than the function has free parameters:
+        # the surplus maps to no name - in particular not to the names of
+        # a wrapped function)
+        npos = draw(st.integers(0, len(top_params) + (
+            2 if draw(st.integers(0, 2)) == 0 else 0)))
         pos = [draw(st.sampled_from(NUMS)) for _ in range(npos)]
         kwn = draw(st.lists(st.sampled_from([p['name'] for p in allp]
                                             or ['zz']), max_size=3,
